@@ -240,3 +240,4 @@ MANIFEST = {
     'note': 'Trusted: the documented file grammar (DESIGN.md section 1) as implemented by '
             'refmodel.parse; numpy/random seeding makes runs reproducible.',
 }
+MANIFEST['text'] += (' ' + 'Shapes: 10..101 instances per run, n2 up to 300 with hundreds of short lists, nested output paths, an unrelated earlier Generator run in the same process.')
